@@ -652,6 +652,7 @@ func (fc *FnCtx) modTargets(items []ast.Expr, se *SpecEnv) ([]modTarget, error) 
 				}
 				add("CN.sent", arraySort("Int"), "")
 				add("CN.recvd", arraySort("Int"), "")
+				add("CN.closed", arraySort("Bool"), "")
 				add("CL."+typeKey(t), arraySort(arraySort(fc.sortStr(t))), "")
 			case "allmaps":
 				pkg := fc.prog.pkgByPath(se.pkgPath)
@@ -718,13 +719,31 @@ func (fc *FnCtx) applyModifies(con *Contract, se *SpecEnv, pre *State) error {
 	na := fc.vc.fresh("H.alloc", "Int")
 	fc.vc.assume(fc.cur.reach, "(>= "+na+" "+frontier+")")
 	fc.cur.heap["alloc"] = na
+	sentBefore := fc.getComp("CN.sent", arraySort("Int"))
 	for _, mt := range targets {
 		oldT := fc.getComp(mt.comp, mt.sort)
 		fc.noteWrite(mt.comp)
 		newT := fc.havocComp(mt.comp, mt.sort, na)
 		fc.vc.assume(fc.cur.reach, frameFormula(fc.vc, oldT, newT, frontier, mt))
+		fc.channelAxioms(mt.comp, oldT, newT, sentBefore)
 	}
 	return nil
+}
+
+// channelAxioms: whatever code runs, the ghost state of channels only grows: send counters are monotone, a closed
+// channel stays closed, and the log of sent values is append-only (entries below the old send count are kept).
+func (fc *FnCtx) channelAxioms(comp, oldT, newT, sentBefore string) {
+	fc.vc.nfresh++
+	c := fmt.Sprintf("q!c!%d", fc.vc.nfresh)
+	n := fmt.Sprintf("q!n!%d", fc.vc.nfresh)
+	switch {
+	case comp == "CN.sent" || comp == "CN.recvd":
+		fc.vc.assume(fc.cur.reach, "(forall (("+c+" Int)) (! (>= (select "+newT+" "+c+") (select "+oldT+" "+c+")) :pattern ((select "+newT+" "+c+")) :qid chan.monotone))")
+	case comp == "CN.closed":
+		fc.vc.assume(fc.cur.reach, "(forall (("+c+" Int)) (! (=> (select "+oldT+" "+c+") (select "+newT+" "+c+")) :pattern ((select "+newT+" "+c+")) :qid chan.closed))")
+	case strings.HasPrefix(comp, "CL."):
+		fc.vc.assume(fc.cur.reach, "(forall (("+c+" Int) ("+n+" Int)) (! (=> (< "+n+" (select "+sentBefore+" "+c+")) (= (select (select "+newT+" "+c+") "+n+") (select (select "+oldT+" "+c+") "+n+"))) :pattern ((select (select "+newT+" "+c+") "+n+")) :qid chan.log))")
+	}
 }
 
 // ---------------------------------------------------------------------------------------------
@@ -1246,6 +1265,9 @@ func (fc *FnCtx) enterLoop(li *loopInfo, in *State) error {
 			newT := fc.havocComp(comp, srt, na)
 			if strings.HasPrefix(srt, "(Array Int ") && !modAllComps[comp] {
 				fc.vc.assume(st.reach, frameFormula(fc.vc, oldT, newT, li.inAlloc, modTarget{comp: comp, refs: li.modRefs[comp]}))
+			}
+			if strings.HasPrefix(comp, "CN.") || strings.HasPrefix(comp, "CL.") {
+				fc.channelAxioms(comp, oldT, newT, fc.compAt(li.inState, "CN.sent", arraySort("Int")))
 			}
 		}
 	}
